@@ -254,9 +254,25 @@ def nontrivial(c):
     return False
 
 
+OWN = ["Gen/NetConsts", "Net/Frame", "Net/FrameFacts", "Net/Handshake", "Net/Queue", "Corr/NetCorr"]
+
+
+def ensure_own_build(chk):
+    """When the project-wide make failed (an obligation of this engine broke, or somebody else's file does not compile),
+    bring this engine's model files up to date one by one, so that the correspondence run still says what changed."""
+    with vlib.Lock("coq"):
+        for f in OWN:
+            rc, out, err = vlib.sh("timeout 600 coqc -Q theories TSS theories/%s.v" % f, cwd=vlib.COQ, timeout=700)
+            if rc != 0:
+                chk.notes.append("own build: %s does not compile: %s" % (f, (out + err)[-400:]))
+                return False
+    return True
+
+
 def run(pid, tier, seed):
     chk = vlib.Check(pid, tier, seed)
-    vlib.proof_stage(chk)
+    if not vlib.proof_stage(chk):
+        ensure_own_build(chk)
     ok, blog = vlib.go_build("net", "net")
     if not ok:
         chk.violation("go_build.txt", "harness does not build against /repo:\n" + blog[-4000:], no_input=True)
